@@ -942,6 +942,57 @@ def tracked_bools(fn):
     return fn._sym[key]
 
 
+def stable_switch_roots(fn):
+    """for every bool switch: (root local, negated) when the operand is a copy / negation chain of a
+    bool local with exactly one definition that is never mutably borrowed (an immutable `let`): two
+    tests of such a local are correlated. Also: local -> set of blocks that (re)define it."""
+    key = 'stable_roots'
+    if key in fn._sym:
+        return fn._sym[key]
+    S = sym(fn)
+    mb = S.mut_borrowed()
+    tracked = tracked_bools(fn)
+    roots = {}
+    defblocks = {}
+    for bb in range(fn.nb):
+        t = fn.blocks[bb]['t']
+        if t['k'] != 'sw' or t.get('oty') != 'bool':
+            continue
+        o = t['o']
+        if o[0] not in ('c', 'm') or o[1][1]:
+            continue
+        cur = o[1][0]
+        neg = False
+        root = None
+        for _ in range(10):
+            ds = fn.defs.get(cur, [])
+            if cur in mb or len(ds) != 1:
+                break
+            if cur not in tracked and fn.local_ty(cur) == 'bool':
+                root = (cur, neg)
+            d = ds[0]
+            if d[0] == 'stmt' and d[3]['k'] == 'use' and d[3]['o'][0] in ('c', 'm') and not d[3]['o'][1][1]:
+                cur = d[3]['o'][1][0]
+            elif d[0] == 'stmt' and d[3]['k'] == 'un' and d[3]['op'] == 'Not' and d[3]['o'][0] in ('c', 'm') and not d[3]['o'][1][1]:
+                cur = d[3]['o'][1][0]
+                neg = not neg
+            else:
+                break
+        if root is not None:
+            # only roots tested more than once matter; collect anyway
+            roots[bb] = root
+            l = root[0]
+            d = fn.defs[l][0]
+            defblocks.setdefault(l, set()).add(d[1])
+    # keep only locals tested by at least two switches
+    cnt = defaultdict(int)
+    for bb, (l, _n) in roots.items():
+        cnt[l] += 1
+    roots = {bb: r for bb, r in roots.items() if cnt[r[0]] >= 2}
+    fn._sym[key] = (roots, defblocks)
+    return fn._sym[key]
+
+
 def reach(fn, start=None, cut_blocks=(), cut_edges=(), cut_points=(), follow_unwind=False, max_states=400000):
     """Path-sensitive (w.r.t. materialised bool temporaries) forward reachability.
 
@@ -954,6 +1005,11 @@ def reach(fn, start=None, cut_blocks=(), cut_edges=(), cut_points=(), follow_unw
     set of block entries reachable; plus set of (bb) whose terminator is reached in 'term'.
     """
     tracked = tracked_bools(fn)
+    sroots, sdefblocks = stable_switch_roots(fn)
+    sdef_of_block = defaultdict(set)
+    for l_, bs_ in sdefblocks.items():
+        for b_ in bs_:
+            sdef_of_block[b_].add(l_)
     cut_blocks = set(cut_blocks)
     cut_edges = set(cut_edges)
     cpb = defaultdict(set)
@@ -978,6 +1034,9 @@ def reach(fn, start=None, cut_blocks=(), cut_edges=(), cut_points=(), follow_unw
         if prev is None or idx < prev:
             entered[bb] = idx
         v = dict(val)
+        # passing the definition of a correlated local forgets what was learnt about it
+        for l_ in sdef_of_block.get(bb, ()):
+            v.pop(('s', l_), None)
         dead = False
         stmts = b['s']
         for j in range(idx, len(stmts)):
@@ -1015,6 +1074,20 @@ def reach(fn, start=None, cut_blocks=(), cut_edges=(), cut_points=(), follow_unw
                         allowed = si
             if t['o'][0] == 'm':
                 v.pop(t['o'][1][0], None)
+        sroot = sroots.get(bb) if allowed is None and t['k'] == 'sw' else None
+        if sroot is not None and ('s', sroot[0]) in v:
+            known = v[('s', sroot[0])]
+            if sroot[1]:
+                known = not known
+            want = '1' if known else '0'
+            for si, (tb, label) in enumerate(succ):
+                if label == want:
+                    allowed = si
+            if allowed is None:
+                for si, (tb, label) in enumerate(succ):
+                    if label == 'otherwise':
+                        allowed = si
+            sroot = None
         fv = frozenset(v.items())
         for si, (tb, label) in enumerate(succ):
             if allowed is not None and si != allowed:
@@ -1022,7 +1095,20 @@ def reach(fn, start=None, cut_blocks=(), cut_edges=(), cut_points=(), follow_unw
             if (bb, si) in cut_edges:
                 continue
             edges_taken.add((bb, si))
-            stt = (tb, 0, fv)
+            if sroot is not None:
+                # learn the value of the correlated local on this edge
+                listed = [lb for _tb, lb in succ if lb != 'otherwise']
+                if label == 'otherwise':
+                    val_ = False if '1' in listed else True
+                else:
+                    val_ = label != '0'
+                if sroot[1]:
+                    val_ = not val_
+                v2 = dict(v)
+                v2[('s', sroot[0])] = val_
+                stt = (tb, 0, frozenset(v2.items()))
+            else:
+                stt = (tb, 0, fv)
             if stt not in seen:
                 seen.add(stt)
                 dq.append(stt)
